@@ -59,6 +59,13 @@ type Prog struct {
 	addrTaken map[*ssa.Function]bool
 
 	LoadTime time.Duration
+
+	// Inline tells which new functions were expanded into their callers.
+	Inline InlineStats
+	// Renamed lists the listed functions found under a new name (old -> new).
+	Renamed []string
+	// Folded maps a listed function that is gone to the former caller that was analysed in its place.
+	Folded map[string]string
 }
 
 // Load loads ./... of RepoDir for the given GOOS ("" = host, linux).
@@ -103,10 +110,25 @@ func Load(goos string) (p *Prog, err error) {
 	prog, _ := ssautil.AllPackages(pkgs, ssa.InstantiateGenerics)
 	prog.Build()
 	p.SSA = prog
+	implAlias = map[*ssa.Function]*ssa.Function{}
 	p.Fns = ssautil.AllFunctions(prog)
+	// functions the inventory does not list are expanded into their callers first (inline.go)
+	var modFns []*ssa.Function
+	for fn := range p.Fns {
+		if InModule(fn) {
+			modFns = append(modFns, fn)
+		}
+	}
+	sort.Slice(modFns, func(i, j int) bool { return modFns[i].String() < modFns[j].String() })
+	p.Renamed = DetectRenames(p.GOOS, modFns)
+	var gone map[*ssa.Function]bool
+	p.Inline, gone = InlineNew(modFns)
+	if p.Inline.Calls > 0 {
+		p.Fns = ssautil.AllFunctions(prog)
+	}
 	p.byKey = map[string]*ssa.Function{}
 	for fn := range p.Fns {
-		if !InModule(fn) {
+		if !InModule(fn) || gone[rootOfKeepInst(fn)] {
 			continue
 		}
 		p.ModFns = append(p.ModFns, fn)
@@ -121,7 +143,6 @@ func Load(goos string) (p *Prog, err error) {
 		p.byKey[k] = fn
 	}
 	// thin wrappers: the name stands for the wrapped implementation when nobody else uses it
-	implAlias = map[*ssa.Function]*ssa.Function{}
 	users := map[*ssa.Function]map[*ssa.Function]bool{}
 	for _, fn := range p.ModFns {
 		if strings.HasPrefix(fn.Synthetic, "wrapper for") {
@@ -244,6 +265,10 @@ func FuncKey(fn *ssa.Function) string {
 	for root.Parent() != nil {
 		root = root.Parent()
 	}
+	if k, ok := renamed[root]; ok {
+		// a listed function under a new spelling keeps its listed key
+		return k + strings.TrimPrefix(s, root.String())
+	}
 	if w, ok := implAlias[root]; ok {
 		s = w.String() + strings.TrimPrefix(s, root.String())
 	}
@@ -258,7 +283,23 @@ func FuncKey(fn *ssa.Function) string {
 // what an "extract function" refactoring leaves behind) and the wrapped
 // function has no other user, the wrapped function is returned: it holds the
 // code the name stands for.
-func (p *Prog) Fn(key string) *ssa.Function { return p.byKey[key] }
+// FnExact is Fn without the fallback to the former caller of a function that is gone.
+func (p *Prog) FnExact(key string) *ssa.Function { return p.byKey[key] }
+
+func (p *Prog) Fn(key string) *ssa.Function {
+	if fn := p.byKey[key]; fn != nil {
+		return fn
+	}
+	// a listed helper that was folded into its only caller: its code is there now
+	if fc := p.FormerCaller(key); fc != nil {
+		if p.Folded == nil {
+			p.Folded = map[string]string{}
+		}
+		p.Folded[key] = FuncKey(fc)
+		return fc
+	}
+	return nil
+}
 
 // implAlias maps a wrapped implementation to its thin wrapper (see Fn).
 var implAlias = map[*ssa.Function]*ssa.Function{}
